@@ -63,6 +63,8 @@ class ProgGen:
         self.malformed_rate = malformed_rate
         self.lazy_rate = lazy_rate
         self.pool = [tgen.rand_leg(rng, self.cfg, symname, s=1) for _ in range(rng.randint(2, 4))]
+        self.exclude = set() # values not used as operands of later steps
+        self.shadows = []    # parallel executions of the same program under other configurations (C14)
         self.vals = []       # real values (Tensor | number | None when failed)
         self.steps = []      # Step objects
         self.ops = ops or ["tensordot", "tensordot", "tensordot", "add", "sub", "transpose", "conj", "trace", "smul",
@@ -71,7 +73,7 @@ class ProgGen:
 
     # ---- values -------------------------------------------------------------------------
     def tensors(self):
-        return [i for i, v in enumerate(self.vals) if isinstance(v, self.yastn.Tensor)
+        return [i for i, v in enumerate(self.vals) if isinstance(v, self.yastn.Tensor) and i not in self.exclude
                 and all(mf == (1,) for mf in v.mfs) and v.yastn_dtype != "bool"]
 
     def fresh_legs(self, rank):
@@ -88,8 +90,17 @@ class ProgGen:
         a = tgen.rand_tensor(rng, self.cfg, self.symname, legs, cplx=self.cplx, n=n)
         return self._push({"f": "input", "a": [], "tensor": tgen.to_model(a)}, a, opname="input")
 
-    def _push(self, model, real=None, exc=None, oracle=None, opname="", args=(), malformed=False):
+    def _push(self, model, real=None, exc=None, oracle=None, opname="", args=(), malformed=False, shadow_results=None):
         self.vals.append(real)
+        sr = shadow_results if shadow_results is not None else getattr(self, "_shadow_results", None)
+        for k, sh in enumerate(self.shadows):
+            if sr is not None and k < len(sr):
+                sh["vals"].append(sr[k][0]); sh["excs"].append(sr[k][1])
+            else:
+                # an input created under the primary configuration: same data under the shadow configuration
+                v = real._replace(config=sh["cfg"]) if isinstance(real, self.yastn.Tensor) else real
+                sh["vals"].append(v); sh["excs"].append(exc)
+        self._shadow_results = None
         st = Step(model, real, exc, None, oracle, opname, args, malformed)
         m0 = getattr(self, "_model0", None)
         if m0 is not None:
@@ -113,10 +124,19 @@ class ProgGen:
 
     def _do(self, model, fn, oracle_fn=None, opname="", args=(), malformed=False):
         try:
-            r = fn()
+            r = fn(self.vals)
             exc = None
         except Exception as e:  # noqa: BLE001 — any rejection is recorded, classified later
             r, exc = None, e
+        self._shadow_results = []
+        for sh in self.shadows:
+            try:
+                rs = fn(sh["vals"])
+                rs = sh["post"](rs)
+                es = None
+            except Exception as e:  # noqa: BLE001
+                rs, es = None, e
+            self._shadow_results.append((rs, es))
         model0 = model
         if model is not None and not self.modelled(*model.get("a", [])):
             model = None   # an operand is outside the model (fused legs, float data)
@@ -183,6 +203,8 @@ class ProgGen:
             lx = x.get_legs(native=True)
             k = rng.randint(0, min(len(lx), 3))
             sel = rng.sample(range(len(lx)), k)
+            if getattr(self, "no_fused_partner", False):
+                sel = [q for q in sel if not lx[q].is_fused()]
             legs = []
             for q in sel:
                 l = lx[q]
@@ -257,8 +279,8 @@ class ProgGen:
             return ("dense", ref, lc)
 
         if matmul and not mal:
-            return self._do(model, lambda: x @ y if cj == (0, 0) else yastn.tensordot(x, y, axes=(ia, ib), conj=cj), oracle, "matmul", (i, j), mal)
-        return self._do(model, lambda: yastn.tensordot(x, y, axes=(ia, ib), conj=cj), None if mal else oracle, "tensordot", (i, j), mal)
+            return self._do(model, lambda V: V[i] @ V[j] if cj == (0, 0) else yastn.tensordot(V[i], V[j], axes=(ia, ib), conj=cj), oracle, "matmul", (i, j), mal)
+        return self._do(model, lambda V: yastn.tensordot(V[i], V[j], axes=(ia, ib), conj=cj), None if mal else oracle, "tensordot", (i, j), mal)
 
     def op_matmul(self, mal):
         return self.op_tensordot(False, matmul=True)
@@ -270,6 +292,8 @@ class ProgGen:
         if x.isdiag:
             return None
         legs = list(x.get_legs(native=True))
+        if getattr(self, "no_fused_partner", False) and any(l.is_fused() for l in legs):
+            return None
         # widen legs with pool legs so that sectors present in only one operand occur
         wl = []
         for l in legs:
@@ -307,7 +331,7 @@ class ProgGen:
             L = {k: union_leg(self.cfg, lx[k].s, lx[k], ly[k]) for k in range(len(lx))}
             ref = x.to_numpy(legs=L) - y.to_numpy(legs=L) if sub else x.to_numpy(legs=L) + y.to_numpy(legs=L)
             return ("dense", ref, L)
-        return self._do(model, (lambda: x - y) if sub else (lambda: x + y), None if mal else oracle, "sub" if sub else "add", (i, j), mal)
+        return self._do(model, (lambda V: V[i] - V[j]) if sub else (lambda V: V[i] + V[j]), None if mal else oracle, "sub" if sub else "add", (i, j), mal)
 
     def op_sub(self, mal):
         return self.op_add(mal, sub=True)
@@ -329,10 +353,10 @@ class ProgGen:
             if amp is None:
                 ids.append(idx)
             else:
-                ids.append(self._do({"f": "smul", "a": [idx], "c": [amp, 0]}, lambda idx=idx, amp=amp: self.vals[idx] * amp, None, "smul", (idx,)))
-        s1 = self._do({"f": "add", "a": [ids[0], ids[1]]}, lambda: self.vals[ids[0]] + self.vals[ids[1]], None, "add", (ids[0], ids[1]))
+                ids.append(self._do({"f": "smul", "a": [idx], "c": [amp, 0]}, lambda V, idx=idx, amp=amp: V[idx] * amp, None, "smul", (idx,)))
+        s1 = self._do({"f": "add", "a": [ids[0], ids[1]]}, lambda V: V[ids[0]] + V[ids[1]], None, "add", (ids[0], ids[1]))
         model = {"f": "add", "a": [s1, ids[2]]}
-        return self._do(model, lambda: self.yastn.add(x, y, z, amplitudes=amps), None, "addmany", (i, j, k))
+        return self._do(model, lambda V: self.yastn.add(V[i], V[j], V[k], amplitudes=amps), None, "addmany", (i, j, k))
 
     def op_transpose(self, mal, move=False):
         rng = self.rng
@@ -350,8 +374,8 @@ class ProgGen:
         model = {"f": "transpose", "a": [i], "axes": perm}
         lazy = rng.random() < self.lazy_rate
 
-        def run():
-            r = x.transpose(axes=tuple(perm))
+        def run(V):
+            r = V[i].transpose(axes=tuple(perm))
             return r if lazy else r.consume_transpose()
 
         def oracle(r):
@@ -369,7 +393,7 @@ class ProgGen:
         src, dst = rng.randrange(nd), rng.randrange(nd)
         perm = list(range(nd)); perm.remove(src); perm.insert(dst, src)
         model = {"f": "transpose", "a": [i], "axes": perm}
-        return self._do(model, lambda: x.moveaxis(src, dst),
+        return self._do(model, lambda V: V[i].moveaxis(src, dst),
                         lambda r: ("dense", np.moveaxis(x.to_numpy(), src, dst), None), "moveaxis", (i,))
 
     def _unary(self, name, fn, ofn):
@@ -377,7 +401,7 @@ class ProgGen:
         if i is None:
             return None
         x = self.vals[i]
-        return self._do({"f": name, "a": [i]}, lambda: fn(x), (lambda r: ("dense", ofn(x.to_numpy()), None)) if ofn else None, name, (i,))
+        return self._do({"f": name, "a": [i]}, lambda V: fn(V[i]), (lambda r: ("dense", ofn(x.to_numpy()), None)) if ofn else None, name, (i,))
 
     def op_conj(self, mal):
         return self._unary("conj", lambda x: x.conj(), lambda d: d.conj())
@@ -397,14 +421,14 @@ class ProgGen:
             return None
         x = self.vals[i]
         f = self.rng.choice(["copy", "clone", "shallow_copy"])
-        return self._do({"f": "id", "a": [i]}, lambda: getattr(x, f)(), lambda r: ("dense", x.to_numpy(), None), f, (i,))
+        return self._do({"f": "id", "a": [i]}, lambda V: getattr(V[i], f)(), lambda r: ("dense", x.to_numpy(), None), f, (i,))
 
     def op_consume_transpose(self, mal):
         i = self.pick()
         if i is None:
             return None
         x = self.vals[i]
-        return self._do({"f": "id", "a": [i]}, lambda: x.consume_transpose(), lambda r: ("dense", x.to_numpy(), None), "consume_transpose", (i,))
+        return self._do({"f": "id", "a": [i]}, lambda V: V[i].consume_transpose(), lambda r: ("dense", x.to_numpy(), None), "consume_transpose", (i,))
 
     def op_smul(self, mal):
         rng = self.rng
@@ -415,7 +439,7 @@ class ProgGen:
         c = complex(rng.randint(-3, 3), rng.randint(-2, 2)) if self.cplx and rng.random() < 0.5 else rng.randint(-3, 3)
         cc = [int(c.real), int(c.imag)] if isinstance(c, complex) else [c, 0]
         side = rng.random() < 0.5
-        return self._do({"f": "smul", "a": [i], "c": cc}, (lambda: x * c) if side else (lambda: c * x),
+        return self._do({"f": "smul", "a": [i], "c": cc}, (lambda V: V[i] * c) if side else (lambda V: c * V[i]),
                         lambda r: ("dense", c * x.to_numpy(), None), "smul", (i,))
 
     def op_trace(self, mal):
@@ -474,7 +498,7 @@ class ProgGen:
                 d = np.trace(d, axis1=lab.index(p), axis2=lab.index(q))
                 lab = [t for t in lab if t not in (p, q)]
             return ("dense", d, {k: lx[p] for k, p in enumerate(rem)})
-        return self._do(model, lambda: x.trace(axes=(tuple(in0), tuple(in1))), None if mal else oracle, "trace", (i,), mal)
+        return self._do(model, lambda V: V[i].trace(axes=(tuple(in0), tuple(in1))), None if mal else oracle, "trace", (i,), mal)
 
     def op_vdot(self, mal):
         rng = self.rng
@@ -488,7 +512,8 @@ class ProgGen:
         cj = (1, 0) if rng.random() < 0.7 else rng.choice([(0, 1), (0, 0), (1, 1)])
         if cj in ((0, 0), (1, 1)):
             # need opposite signatures: use conj(y) as partner value
-            j = self._do({"f": "conj", "a": [j]}, lambda: y.conj(), None, "conj", (j,))
+            j0 = j
+            j = self._do({"f": "conj", "a": [j0]}, lambda V: V[j0].conj(), None, "conj", (j0,))
             y = self.vals[j]
         model = {"f": "vdot", "a": [i, j], "conj": list(cj)}
 
@@ -502,7 +527,7 @@ class ProgGen:
             if cj[1]:
                 db = db.conj()
             return ("num", complex(np.sum(da * db)))
-        return self._do(model, lambda: self.yastn.vdot(x, y, conj=cj), oracle, "vdot", (i, j))
+        return self._do(model, lambda V: self.yastn.vdot(V[i], V[j], conj=cj), oracle, "vdot", (i, j))
 
     def op_add_leg(self, mal):
         rng = self.rng
@@ -518,8 +543,8 @@ class ProgGen:
         if default:  # add_leg(axis, s) with t=None: leg takes the tensor charge, n becomes 0
             tt = self.cfg.sym.add_charges(x.n, signatures=(-1,), new_signature=s)
             model["t"] = list(tt)
-            return self._do(model, lambda: x.add_leg(axis=axis, s=s), lambda r: ("dense", np.expand_dims(x.to_numpy(), axis), None), "add_leg_default", (i,), mal)
-        return self._do(model, lambda: x.add_leg(axis=axis, s=s, t=t), (lambda r: ("dense", np.expand_dims(x.to_numpy(), axis), None)) if not mal else None, "add_leg", (i,), mal)
+            return self._do(model, lambda V: V[i].add_leg(axis=axis, s=s), lambda r: ("dense", np.expand_dims(x.to_numpy(), axis), None), "add_leg_default", (i,), mal)
+        return self._do(model, lambda V: V[i].add_leg(axis=axis, s=s, t=t), (lambda r: ("dense", np.expand_dims(x.to_numpy(), axis), None)) if not mal else None, "add_leg", (i,), mal)
 
     def op_remove_leg(self, mal):
         rng = self.rng
@@ -536,7 +561,7 @@ class ProgGen:
         i, axis = rng.choice(cands)
         x = self.vals[i]
         model = {"f": "remove_leg", "a": [i], "axis": axis}
-        return self._do(model, lambda: x.remove_leg(axis=axis), (lambda r: ("dense", np.squeeze(x.to_numpy(), axis), None)) if not mal else None, "remove_leg", (i,), mal)
+        return self._do(model, lambda V: V[i].remove_leg(axis=axis), (lambda r: ("dense", np.squeeze(x.to_numpy(), axis), None)) if not mal else None, "remove_leg", (i,), mal)
 
 
     # ---- operations outside the (current) model: executed on the real code with NumPy / invariant oracles;
@@ -601,8 +626,8 @@ class ProgGen:
             out = "".join(letters[k] for k in range(len(free)))
             spec = ",".join(sub) + "->" + out
             ordr = "".join(letters[x + 10] for x in order) if use_order else None
-            return self._do(None, lambda: yastn.einsum(spec, *ts, order=ordr), oracle, "einsum", tuple(ids))
-        return self._do(None, lambda: yastn.ncon(ts, labels, conjs=conjs, order=order if use_order else None), oracle, "ncon", tuple(ids))
+            return self._do(None, lambda V: yastn.einsum(spec, *[V[q] for q in ids], order=ordr), oracle, "einsum", tuple(ids))
+        return self._do(None, lambda V: yastn.ncon([V[q] for q in ids], labels, conjs=conjs, order=order if use_order else None), oracle, "ncon", tuple(ids))
 
     def op_einsum(self, mal):
         return self.op_ncon(mal, einsum=True)
@@ -617,16 +642,16 @@ class ProgGen:
         i = self.new_input(legs=[l, l.conj()], n=self.cfg.sym.zero())
         x = self.vals[i]
         if rng.random() < 0.4:
-            x2 = x.transpose((1, 0))  # kept lazy
-            j = self._do({"f": "transpose", "a": [i], "axes": [1, 0]}, lambda: x2, None, "transpose_lazy", (i,))
+            i0 = i
+            j = self._do({"f": "transpose", "a": [i0], "axes": [1, 0]}, lambda V: V[i0].transpose((1, 0)), None, "transpose_lazy", (i0,))  # kept lazy
             x, i = self.vals[j], j
         def oracle(r):
             d = x.to_numpy()
             return ("dense", np.diag(np.diag(d)), dict(enumerate(x.get_legs(native=True))))
-        j = self._do(None, lambda: x.diag(), oracle, "diag_to_diag", (i,))
+        j = self._do(None, lambda V: V[i].diag(), oracle, "diag_to_diag", (i,))
         y = self.vals[j]
         if isinstance(y, yastn.Tensor) and rng.random() < 0.7:
-            return self._do(None, lambda: y.diag(), lambda r: ("dense", y.to_numpy(), dict(enumerate(y.get_legs(native=True)))), "diag_to_full", (j,))
+            return self._do(None, lambda V: V[j].diag(), lambda r: ("dense", y.to_numpy(), dict(enumerate(y.get_legs(native=True)))), "diag_to_full", (j,))
         return j
 
     def _diag_for(self, leg):
@@ -671,18 +696,18 @@ class ProgGen:
             return ("dense", ref, Lr)
         which = rng.choice(["broadcast", "dot_left", "dot_right"])
         if which == "broadcast":
-            return self._do(None, lambda: d.broadcast(x, axes=ax), oracle, "broadcast", (k, i))
+            return self._do(None, lambda V: V[k].broadcast(V[i], axes=ax), oracle, "broadcast", (k, i))
         if which == "dot_left":   # diag @ x over x's axis `ax`: result leg moves to front
             def oracle2(r):
                 kind, ref, Lr = oracle(r)
                 order = [ax] + [k for k in range(len(lx)) if k != ax]
                 return ("dense", np.moveaxis(ref, ax, 0), {k: Lr[p] for k, p in enumerate(order)})
-            return self._do(None, lambda: self.yastn.tensordot(d, x, axes=(1, ax)), oracle2, "tensordot_diag", (k, i))
+            return self._do(None, lambda V: self.yastn.tensordot(V[k], V[i], axes=(1, ax)), oracle2, "tensordot_diag", (k, i))
         def oracle3(r):
             kind, ref, Lr = oracle(r)
             order = [k for k in range(len(lx)) if k != ax] + [ax]
             return ("dense", np.moveaxis(ref, ax, -1), {k: Lr[p] for k, p in enumerate(order)})
-        return self._do(None, lambda: self.yastn.tensordot(x, d.transpose((1, 0)), axes=(ax, 1)), oracle3, "tensordot_diag", (i, k))
+        return self._do(None, lambda V: self.yastn.tensordot(V[i], V[k].transpose((1, 0)), axes=(ax, 1)), oracle3, "tensordot_diag", (i, k))
 
     def op_apply_mask(self, mal):
         rng = self.rng
@@ -706,7 +731,7 @@ class ProgGen:
             keep = np.asarray(m.to_numpy().diagonal()).astype(bool)
             ref = np.compress(keep, dx, axis=ax)
             return ("dense-compact", ref, ax, keep, leg)
-        return self._do(None, lambda: m.apply_mask(x, axes=ax), oracle, "apply_mask", (k, i))
+        return self._do(None, lambda V: V[k].apply_mask(V[i], axes=ax), oracle, "apply_mask", (k, i))
 
     def op_fuse(self, mal, mode=None):
         rng = self.rng
@@ -724,7 +749,7 @@ class ProgGen:
         axes = tuple(g if len(g) > 1 else g[0] for g in groups)
         mode = mode or rng.choice(["hard", "meta", None])
         kw = {} if mode is None else {"mode": mode}
-        j = self._do(None, lambda: x.fuse_legs(axes=axes, **kw), None, f"fuse_{mode}", (i,))
+        j = self._do(None, lambda V: V[i].fuse_legs(axes=axes, **kw), None, f"fuse_{mode}", (i,))
         y = self.vals[j]
         if not isinstance(y, self.yastn.Tensor):
             return j
@@ -735,7 +760,7 @@ class ProgGen:
         def oracle(r):
             return ("dense-exact-struct", x.transpose(axes=tuple(flat)))
         if rng.random() < 0.7 and fused_axes:
-            return self._do(None, lambda: y.unfuse_legs(axes=fused_axes), oracle, "unfuse", (j,))
+            return self._do(None, lambda V: V[j].unfuse_legs(axes=fused_axes), oracle, "unfuse", (j,))
         return j
 
     def op_svd(self, mal, which="svd"):
@@ -751,21 +776,41 @@ class ProgGen:
         axes = (tuple(perm[:k]), tuple(perm[k:]))
         if which == "svd":
             kw = dict(sU=rng.choice([1, -1]), nU=rng.random() < 0.5)
-            fn = lambda: yastn.linalg.svd(x, axes=axes, **kw)
+            fn = lambda V: yastn.linalg.svd(V[i], axes=axes, **kw)
         else:
             kw = dict(sQ=rng.choice([1, -1]))
-            fn = lambda: yastn.linalg.qr(x, axes=axes, **kw)
+            fn = lambda V: yastn.linalg.qr(V[i], axes=axes, **kw)
         try:
-            res = fn()
+            res = fn(self.vals)
             exc = None
         except Exception as e:  # noqa: BLE001
             res, exc = None, e
+        shres = []
+        for sh in self.shadows:
+            try:
+                rs, es = tuple(sh["post"](t) for t in fn(sh["vals"])), None
+            except Exception as e:  # noqa: BLE001
+                rs, es = None, e
+            shres.append((rs, es))
         if exc is not None:
-            return self._push({"f": "opaque", "a": []}, None, exc, None, which, (i,))
+            return self._push({"f": "opaque", "a": []}, None, exc, None, which, (i,), shadow_results=[(None, es or exc) for _, es in shres])
         out = None
-        for part, r in zip("USV" if which == "svd" else "QR", res):
-            out = self._push({"f": "opaque", "a": []}, r, None, ("charge-split", which, part, i, kw), f"{which}_{part}", (i,))
-        return out
+        names = "USV" if which == "svd" else "QR"
+        for q, (part, r) in enumerate(zip(names, res)):
+            out = self._push({"f": "opaque", "a": []}, r, None, ("charge-split", which, part, i, kw), f"{which}_{part}", (i,),
+                             shadow_results=[((rs[q] if rs is not None else None), es) for rs, es in shres])
+        # the factors are unique only up to a gauge (signs, zero singular values): they are not used by later steps;
+        # the gauge-invariant reconstruction U@S@V / Q@R is pushed as an ordinary value
+        first = out - len(names) + 1
+        ids = list(range(first, out + 1))
+        self.exclude.update(ids)
+        perm_all = list(axes[0]) + list(axes[1])
+
+        def oracle(r):
+            return ("dense-close", np.transpose(x.to_numpy(), perm_all), None)
+        if which == "svd":
+            return self._do(None, lambda V: V[ids[0]] @ V[ids[1]] @ V[ids[2]], oracle, "svd_reconstruct", tuple(ids))
+        return self._do(None, lambda V: V[ids[0]] @ V[ids[1]], oracle, "qr_reconstruct", tuple(ids))
 
     def op_qr(self, mal):
         return self.op_svd(mal, which="qr")
@@ -775,7 +820,7 @@ class ProgGen:
         if i is None:
             return None
         x = self.vals[i]
-        return self._do(None, lambda: x.remove_zero_blocks(), lambda r: ("dense-values", x), "remove_zero_blocks", (i,))
+        return self._do(None, lambda V: V[i].remove_zero_blocks(), lambda r: ("dense-values", x), "remove_zero_blocks", (i,))
 
 
 # ----------------------------------------------------------------------------------------
@@ -872,6 +917,18 @@ def check_oracle(gen, st):
             return f"to_numpy failed: {type(e).__name__}: {e}"
     if kind == "charge-split":
         return None  # judged by the well-formedness / charge oracles of C02 and by C04
+    if kind == "dense-close":
+        ref = st.oracle[1]
+        try:
+            got = r.to_numpy(legs=dict(enumerate(gen.vals[st.args[0]].get_legs(native=True)[:0]))) if False else r.to_numpy()
+        except Exception as e:  # noqa: BLE001
+            return f"to_numpy failed: {type(e).__name__}: {e}"
+        if len(r.struct.t) == 0:
+            return None if np.allclose(ref, 0, atol=1e-9) else "result has no blocks but the reference is non-zero"
+        if got.shape != ref.shape:
+            return f"dense shape {got.shape} != reference {ref.shape}"
+        scale = max(1.0, float(np.max(np.abs(ref))) if ref.size else 1.0)
+        return None if np.allclose(got, ref, rtol=1e-9, atol=1e-9 * scale) else "reconstruction differs from the factorised tensor"
     _, ref, legs = st.oracle
     try:
         got = r.to_numpy(legs=legs) if legs else r.to_numpy()
